@@ -49,7 +49,11 @@ pub struct Parser<'a> {
     lexer: Lexer<'a>,
     current: Token,
     peeked: Option<Token>,
+    depth: usize,
 }
+
+/// Maximum nesting depth of expressions and subqueries (same limit as `expr.rs`).
+const MAX_DEPTH: usize = 64;
 
 impl<'a> Parser<'a> {
     /// Creates a new parser for the given source.
@@ -62,7 +66,21 @@ impl<'a> Parser<'a> {
             lexer,
             current,
             peeked: None,
+            depth: 0,
         }
+    }
+
+    /// Enters one nesting level; fails with `TooDeep` instead of exhausting the stack.
+    fn enter_nested(&mut self) -> ParseResult<()> {
+        self.depth += 1;
+        if self.depth > MAX_DEPTH {
+            self.depth -= 1;
+            return Err(ParseError::new(
+                crate::error::ParseErrorKind::TooDeep,
+                self.current.span,
+            ));
+        }
+        Ok(())
     }
 
     /// Returns the source text.
@@ -192,6 +210,13 @@ impl<'a> Parser<'a> {
 
     /// Parses an expression with the given minimum binding power.
     fn parse_expr_bp(&mut self, min_bp: u8) -> ParseResult<Expr> {
+        self.enter_nested()?;
+        let result = self.parse_expr_bp_nested(min_bp);
+        self.depth -= 1;
+        result
+    }
+
+    fn parse_expr_bp_nested(&mut self, min_bp: u8) -> ParseResult<Expr> {
         let mut lhs = self.parse_prefix_expr()?;
 
         loop {
@@ -765,6 +790,13 @@ impl<'a> Parser<'a> {
     /// Parses a SELECT statement body (after the SELECT keyword).
     /// Used for both standalone SELECT and subqueries.
     fn parse_select_body(&mut self) -> ParseResult<SelectStmt> {
+        self.enter_nested()?;
+        let result = self.parse_select_body_nested();
+        self.depth -= 1;
+        result
+    }
+
+    fn parse_select_body_nested(&mut self) -> ParseResult<SelectStmt> {
         // Handle DISTINCT or ALL (ALL is the default, just consume it)
         let distinct = if self.eat(&TokenKind::Distinct) {
             true
